@@ -44,7 +44,7 @@ pub fn harness_main(gen: GenFn, run: RunFn) {
         }
         "run" => {
             std::panic::set_hook(Box::new(|_| {}));
-            // Watchdog: a single case that runs for more than 15 s (e.g. a loop over 2^32
+            // Watchdog: a single case that runs for more than 60 s (e.g. a loop over 2^32
             // fragments after a broken row count) ends the run with exit status 3.
             let started = std::sync::Arc::new(std::sync::Mutex::new((std::time::Instant::now(), String::new())));
             {
@@ -52,8 +52,8 @@ pub fn harness_main(gen: GenFn, run: RunFn) {
                 std::thread::spawn(move || loop {
                     std::thread::sleep(std::time::Duration::from_secs(1));
                     let g = started.lock().unwrap();
-                    if !g.1.is_empty() && g.0.elapsed().as_secs() >= 15 {
-                        eprintln!("HANG: case did not finish within 15 s: {}", g.1);
+                    if !g.1.is_empty() && g.0.elapsed().as_secs() >= 60 {
+                        eprintln!("HANG: case did not finish within 60 s: {}", g.1);
                         std::process::exit(3);
                     }
                 });
@@ -67,6 +67,8 @@ pub fn harness_main(gen: GenFn, run: RunFn) {
                 let toks: Vec<&str> = line.split_ascii_whitespace().collect();
                 *started.lock().unwrap() = (std::time::Instant::now(), line.chars().take(2000).collect());
                 let res = catch_unwind(AssertUnwindSafe(|| run(&toks)));
+                // only the case itself is timed, not the time spent blocked on a full output pipe
+                started.lock().unwrap().1.clear();
                 let res = match res {
                     Ok(s) => s,
                     Err(e) => {
